@@ -67,6 +67,20 @@ def _navigate(doc, parts):
     return cur
 
 
+_LOOP = None
+
+
+def _async_matches(compiled, doc):
+    import asyncio
+    global _LOOP
+    if _LOOP is None or _LOOP.is_closed():
+        _LOOP = asyncio.new_event_loop()
+
+    async def go():
+        return [m async for m in await compiled.finditer_async(doc)]
+    return _LOOP.run_until_complete(go())
+
+
 def evaluate(ctx, cases):
     import jsonpath
     from jsonpath import JSONPointer
@@ -148,11 +162,53 @@ def evaluate(ctx, cases):
                         okp = False
                     if not okp:
                         ctx.violation("the parent match must carry the parent container", where, "different object", "same object")
+                    # the whole chain up to the root: one step shorter each time, valid paths that are prefixes, then None
+                    cur, steps = x, 0
+                    while cur is not None and steps <= len(x.parts) + 1:
+                        up = cur.parent
+                        if up is not None:
+                            if list(up.parts) != list(cur.parts[:-1]) or not _NP.match(up.path) or not cur.path.startswith(up.path) or up.path == cur.path:
+                                ctx.violation("every ancestor in the parent chain is the match one step shorter, with a normalized path that is a proper prefix", where,
+                                              {"parts": list(up.parts), "path": up.path}, {"parts": list(cur.parts[:-1])})
+                                break
+                        elif cur.parts:
+                            ctx.violation("the parent chain must reach the root match", where, list(cur.parts), [])
+                            break
+                        cur, steps = up, steps + 1
+            if getattr(x, "root", doc) is not doc:
+                ctx.violation("a match's root is the queried document", where, "another object", "the document")
             # equal paths iff same node
             key = tuple(x.parts)
             if x.path in seen and seen[x.path] != key:
                 ctx.violation("two matches with equal paths must denote the same node", where, [seen[x.path], key], "same location")
             seen[x.path] = key
+        # the listed views of the same matches: Query.locations() / pointers() / items(), JSONPointer.from_match, and the
+        # matches produced by the other entry points (their locations are built by separate code)
+        if ctx.rng.random() < (0.15 if ctx.tier == "quick" else 0.5):
+            ctx.count("views")
+            want_paths = [x.path for x in matches]
+            want_ptrs = [G.rfc6901_spell(x.parts) for x in matches]
+            views = {
+                "query().locations()": (lambda: list(jsonpath.query(c["text"], doc).locations()), want_paths),
+                "compiled.query().locations()": (lambda: list(compiled.query(doc).locations()), want_paths),
+                "query().pointers()": (lambda: [str(p) for p in jsonpath.query(c["text"], doc).pointers()], want_ptrs),
+                "query().items() paths": (lambda: [p for p, _ in jsonpath.query(c["text"], doc).items()], want_paths),
+                "JSONPointer.from_match": (lambda: [str(JSONPointer.from_match(x)) for x in matches], want_ptrs),
+                "finditer_async paths": (lambda: [x.path for x in _async_matches(compiled, doc)], want_paths),
+                "finditer_async pointers": (lambda: [str(x.pointer()) for x in _async_matches(compiled, doc)], want_ptrs),
+                "finditer_async parents": (lambda: [None if x.parent is None else list(x.parent.parts) for x in _async_matches(compiled, doc)],
+                                           [None if not x.parts else list(x.parts[:-1]) for x in matches]),
+                "match() path": (lambda: (lambda mm: [] if mm is None else [mm.path, str(mm.pointer())])(jsonpath.match(c["text"], doc)),
+                                 [] if not matches else [matches[0].path, want_ptrs[0]]),
+            }
+            for name, (fn, want) in views.items():
+                r = core.outcome(fn)
+                if r.get("ok") != want:
+                    ctx.violation("every view of the matches (locations, pointers, items, asynchronous matches, match()) must carry the same locations", {**inp, "view": name},
+                                  r.get("ok", r.get("err")) if "err" in r else r["ok"][:5], want[:5])
+            ids = core.outcome(lambda: [x.obj for x in _async_matches(compiled, doc)])
+            if "ok" in ids and not (len(ids["ok"]) == len(matches) and all(a is b.obj for a, b in zip(ids["ok"], matches))):
+                ctx.violation("asynchronous matches must carry the very objects of the document", inp, "different objects", "same objects")
         paths_by_loc = {}
         for x in matches:
             paths_by_loc.setdefault(tuple((type(p).__name__, p) for p in x.parts), set()).add(x.path)
